@@ -314,7 +314,9 @@ def gen_rule(rng, ins, outs, d, representable):
     if n == 3 and rng.random() < 0.5:
         ante = f"( {parts[0]} {parts[1]} {parts[2]} ) {parts[3]} {parts[4]}"
     cons = " and ".join(prop(outs, False) for _ in range(rng.choice([1, 1, 2])))
-    return {"antecedent": ante, "consequent": cons, "weight": fhex(height_pool(rng, d, representable))}
+    # a weight of exactly 0 (a muted rule) is legal, representable at every number of decimals, and falsy in Python
+    w = 0.0 if rng.random() < 0.06 else height_pool(rng, d, representable)
+    return {"antecedent": ante, "consequent": cons, "weight": fhex(w)}
 
 
 def build_rule(spec):
